@@ -45,6 +45,7 @@ STRENGTHENED = {
     "C09-r2": "PreemptibleResource was not covered; added c09_preemptible_script - which exposed a genuine defect on the unchanged tree (fixed: 9dcb6fb); the change was then ported onto the repaired acquire() (patch_ported.diff)",
     "C18-r2": "three replicas appeared only in the thorough tier and with 4 operations; added c18_orset3 (every 5-step history on 3 replicas, merge laws on the reached states)",
     "C20-r2": "merge results were compared but the merge argument was never looked at again; merges must now leave their argument unchanged",
+    "C15-r3": "every harness stopped at the first crash (recovering twice meant recovering twice in a row); added c15_second_crash: crash, recover, keep writing through a memtable flush, crash again at any phase-2 event",
     "C18": "HLC was always started from a fresh clock; now its initial (physical, logical) state is symbolic",
 }
 out = ["# Seeded regressions: what the checks catch", "",
